@@ -2,42 +2,4 @@ use vstd::prelude::*;
 use vstd::std_specs::cmp::*;
 use core::cmp::Ordering;
 //@ items
-// ---- TRUSTED: abstract stand-in for semver::Version (assumption A1) ----
-// Nothing is assumed about the order except that it is a total order that is
-// consistent with `==`: no density, no discreteness, no least element.  So
-// everything proved below holds for semver precedence including pre-release
-// and build metadata, provided semver's `Ord` is such an order.
-#[verifier::external_body]
-pub struct Version { _opaque: u8 }
-
-/// the precedence order `a <= b` of semver::Version's `Ord` impl
-pub uninterp spec fn vle(a: Version, b: Version) -> bool;
-
-pub broadcast axiom fn vle_total(a: Version, b: Version)
-    ensures #[trigger] vle(a, b) || vle(b, a);
-pub broadcast axiom fn vle_antisym(a: Version, b: Version)
-    requires #[trigger] vle(a, b), #[trigger] vle(b, a)
-    ensures a == b;
-pub broadcast axiom fn vle_trans(a: Version, b: Version, c: Version)
-    requires #[trigger] vle(a, b), #[trigger] vle(b, c)
-    ensures vle(a, c);
-
-impl PartialEqSpecImpl for Version {
-    open spec fn obeys_eq_spec() -> bool { true }
-    open spec fn eq_spec(&self, other: &Self) -> bool { *self == *other }
-}
-impl PartialEq for Version {
-    #[verifier::external_body]
-    fn eq(&self, other: &Self) -> (r: bool) { unimplemented!() }
-}
-impl Eq for Version {}
-impl PartialOrdSpecImpl for Version {
-    open spec fn obeys_partial_cmp_spec() -> bool { true }
-    open spec fn partial_cmp_spec(&self, other: &Self) -> Option<Ordering> {
-        if *self == *other { Some(Ordering::Equal) } else if vle(*self, *other) { Some(Ordering::Less) } else { Some(Ordering::Greater) }
-    }
-}
-impl PartialOrd for Version {
-    #[verifier::external_body]
-    fn partial_cmp(&self, other: &Self) -> (r: Option<Ordering>) { unimplemented!() }
-}
+//@ include ../_common/prelude_version.rs
